@@ -2,6 +2,8 @@
 import traceback
 import z3
 
+from .core import spec as _spec
+
 from .core import (State, Sym, Arr, Arr2, LArr, SList, PyList, ObjRec, Ref,
                    FlatList,
                    OutsideSubset, Raised, I, B)
@@ -118,7 +120,7 @@ def verify_function(ex, qualname, contract, make_env, frame_obj='self',
     n_before = len(cx.obligations)
     try:
         st.env = make_env(ex, st)
-        for (nm, f) in contract.pre(View(ex, st)):
+        for (nm, f) in _spec(contract.pre, View(ex, st)):
             st.assume(f)
         cx.line = fs.node.lineno
         cx.cover(st, 'pre_satisfiable')
@@ -132,7 +134,7 @@ def verify_function(ex, qualname, contract, make_env, frame_obj='self',
             if o.status == 'return':
                 unit.exits.append('return')
                 cx.cover(o, 'exit_reachable/' + '.'.join(o.trace[-6:]))
-                for (nm, f) in contract.post(View(ex, old), View(ex, o),
+                for (nm, f) in _spec(contract.post, View(ex, old), View(ex, o),
                                              o.retval):
                     cx.oblige(o, 'post/' + nm, f, kind='post')
                 if check_frame and frame_obj in old.env and isinstance(
@@ -187,7 +189,7 @@ def verify_function(ex, qualname, contract, make_env, frame_obj='self',
             elif o.status == 'raise':
                 unit.exits.append('raise ' + str(o.exc))
                 if contract.raises is not None:
-                    for (nm, f) in contract.raises(View(ex, old), View(ex, o),
+                    for (nm, f) in _spec(contract.raises, View(ex, old), View(ex, o),
                                                    o.exc):
                         cx.oblige(o, 'raises/' + nm, f, kind='raises',
                                   exc=o.exc)
